@@ -32,7 +32,7 @@ St0 == [call |-> None, req |-> None, resp |-> None, nreq |-> 0]
 OnReq(s, e) ==
   LET c == s.call op == c.op IN
   [st |-> [s EXCEPT !.req = e, !.nreq = @ + 1],
-   cl |-> << <<"second_request", s.nreq = 0>>,
+   cl |-> << <<"second_request", s.nreq = 0 \/ Has(Sc, "engine_change")>>,
              <<"request_mismatch_oids", e.oids = c.oids>>,
              <<"request_mismatch_pdu_type", e.kind = KindOf(op)>>,
              <<"request_mismatch_version", e.ver = Ver>>,
@@ -90,7 +90,10 @@ OnRet(s, e) ==
   LET c == s.call IN
   [st |-> s,
    cl |->
-     IF s.resp = None
+     IF s.resp = None /\ Has(Sc, "engine_change")
+     THEN \* the agent answered with an unknownEngineID Report only: there is no response to hand out
+          << <<"report_returned_as_result", e.kind = "exc">>, <<"non_snmp_exception", e.snmp>> >>
+     ELSE IF s.resp = None
      THEN \* the operation never reached the agent: the discovery exchange was refused
           IF Disco = "echo" THEN << <<"disco_matching_msgid_rejected", FALSE>> >>
           ELSE << <<"disco_wrong_msgid_accepted", e.kind = "exc" /\ e.cls = "InvalidResponseId">> >>
@@ -98,16 +101,16 @@ OnRet(s, e) ==
               idok == r.reqid = s.req.reqid IN
           IF ~(r.commok /\ r.verok)
           THEN << <<"accepted_wrong_community_or_version", e.kind = "exc" /\ e.snmp>> >>
+          ELSE IF ~idok          \* whatever else it carries (data or an error-status): it is not the answer to the request sent
+          THEN << <<"accepted_wrong_id", e.kind = "exc">>,
+                  <<"wrong_id_other_exception", e.cls = "InvalidResponseId">> >>
           ELSE IF r.es # 0
           THEN << <<"error_returned_as_data", e.kind = "exc">>,
                   <<"non_snmp_exception", e.snmp>>,
-                  <<"wrong_exception_class", e.cls = ErrClass(r.es) \/ (~idok /\ e.cls = "InvalidResponseId")>>,
-                  <<"wrong_status", e.cls = "InvalidResponseId" \/ e.status = r.es>>,
-                  <<"wrong_offending_oid", e.cls = "InvalidResponseId" \/ (r.ei \in DOMAIN vb => e.oid = vb[r.ei][1])>>,
-                  <<"offending_oid_not_selected", e.cls = "InvalidResponseId" \/ (r.ei \notin DOMAIN vb => e.oid = <<>>)>> >>
-          ELSE IF ~idok
-          THEN << <<"accepted_wrong_id", e.kind = "exc">>,
-                  <<"wrong_id_other_exception", e.cls = "InvalidResponseId">> >>
+                  <<"wrong_exception_class", e.cls = ErrClass(r.es)>>,
+                  <<"wrong_status", e.status = r.es>>,
+                  <<"wrong_offending_oid", r.ei \in DOMAIN vb => e.oid = vb[r.ei][1]>>,
+                  <<"offending_oid_not_selected", r.ei \notin DOMAIN vb => e.oid = <<>> >> >>
           ELSE << <<"rejected_matching_id", e.cls # "InvalidResponseId">>,
                   <<"non_snmp_exception", e.kind = "result" \/ e.snmp>> >> \o DataClauses(c, vb, e)]
 
